@@ -1,5 +1,6 @@
 """C01 — no validating entry point ever yields an instance that violates its declaration."""
 import json
+import re
 import random
 from ..suites import construct as S
 
@@ -7,10 +8,7 @@ ID = "C01"
 SUITE = "construct"
 LEAN_TARGETS = ["TypedpyModel.Props.C01", "TypedpyModel.Audit.C01"]
 AUDIT = "C01"
-THEOREMS = [
-    "Typedpy.C01.validate_sound", "Typedpy.C01.construct_sound", "Typedpy.C01.entry_sound",
-    "Typedpy.C01.entry_chain_sound", "Typedpy.C01.construct_then_chain_sound", "Typedpy.C01.soundness_example",
-]
+THEOREMS = re.findall(r"#print axioms (\S+)", open(__file__.rsplit("/harness/", 1)[0] + "/lean/TypedpyModel/Audit/C01.lean").read())
 RULE = ("classes from the type-directed declaration generator; kwargs streams valid/boundary/confusion/corrupt/None/"
         "missing/extra; chains of 1..3 (quick) / 1..6 (thorough) entry points drawn from copy, deepcopy, pickle, "
         "shallow_clone_with_overrides(+valid/invalid override), from_other_class(instance | mapping, +ignore_props, "
@@ -170,7 +168,7 @@ def run_inherit(case):
 
 
 def cases(rng, tier):
-    return S.gen_cases(rng, tier, 90 if tier == "quick" else 1200) + S.default_cases(random.Random(str(rng.getstate()[1][0])), tier, 150 if tier == "quick" else 2500) + S.crosstype_cases() + inherit_cases(rng, 150 if tier == "quick" else 3000)
+    return S.gen_cases(rng, tier, 90 if tier == "quick" else 1200) + S.default_cases(random.Random(str(rng.getstate()[1][0])), tier, 150 if tier == "quick" else 2500) + S.crosstype_cases() + S.hook_cases(random.Random("hook" + str(rng.getstate()[1][0])), tier, 120 if tier == "quick" else 2000) + inherit_cases(rng, 150 if tier == "quick" else 3000)
 
 
 def search_cases(rng, tier):
